@@ -9,6 +9,14 @@ ALL = ["C%02d" % i for i in range(1, 21)]
 
 # id -> dict(level, technique, text, note, design_ref, engine)
 CHECKS = {
+    "C05": dict(
+        level="model_checking",
+        engine="E2-bcmc",
+        technique="explicit-state model checking of compiled instruction streams under an abstract VM (all control-flow paths), bound to the real VM by trace conformance through verif_hooks probes",
+        text="For every generated program (complete depth-1 space with blocks, includes, macros, call blocks, set/filter/autoescape/with blocks, recursive and filtered loops and break/continue, in three wrappings: plain with sentinel text, as child block under extends, as included template; a third of the depth-2 space quick / all of it plus a stride of depth 3 thorough; 11 hand-written shapes) each instruction stream and each entry point (main, every block, every macro body) is explored exhaustively by BFS over abstract states (pc, operand stack of Opaque|Int, frame kinds with loop iteration count and recursion return, capture stack, auto-escape depth, extends-pending, recursion depth) with every conditional jump, short-circuit jump and Iterate taken both ways; invariants on every state/transition: frame/capture/escape pops hit something the same evaluation pushed and of the right kind, no operand pop below the entry height, everything balanced at every end, every reachable state can reach an end. The model is bound to the code: each program is rendered under 3 contexts with probes recording every executed instruction, and every concrete trace must be a path of the explored abstract graph (same pc, operand height, frame kinds, capture and auto-escape depth at every step); real evaluations must also leave frames, captures and the auto-escape mode as they found them and a sentinel after the outermost construct must reach the output.",
+        note="Bounds: loops iterate 0..2 times, loop recursion nests <= 3. Include/CallBlock/FastSuper/macro calls are atomic in the caller and each callee stream is explored on its own. A conformance failure is a machinery error (key MACHINERY:conformance). `do` and *args calls are outside the alphabet.",
+        design_ref="2/C05",
+    ),
     "C11": dict(
         level="exploration",
         engine="E5-crash",
